@@ -381,6 +381,33 @@ func init() {
 								c.res("%s", out2)
 							}
 						}
+						// a rotating remote: the address handed out by GetAddress is the one dialed AND the one whose name the
+						// certificate is checked against (not the one the remote would hand out next)
+						if bh == "handshake" && !strings.HasPrefix(ctor, "config") {
+							rr, _ := NewPrioritizedRoundRobinRemote([][]string{{"good.example.com:443"}, {"other.example.com:443"}})
+							ct3 := &ConnectionTransportTLS{srvRemote: rr, maxFrameLength: 1 << 20, logFactory: quietLogFactory(),
+								handshakeTimeout: to, dialable: d, rootCerts: kit.caPEM,
+								log: newConnectionLogUnstructured(quietOut{}, "T")}
+							go func() {
+								xp, err := ct3.Dial(context.Background())
+								ch <- res{xp, err}
+							}()
+							var r3 res
+							select {
+							case r3 = <-ch:
+							case <-time.After(10 * time.Minute):
+								r3 = res{nil, fmt.Errorf("DIAL-BLOCKED")}
+							}
+							out3 := "ok"
+							if r3.err != nil {
+								out3 = "fail"
+							}
+							n++
+							c.note("tls ctor=%s cert=%s rotating-remote-first-address", ctor, ck)
+							c.op("tlsdial %s %s %d", ck, bh, int64(to/time.Millisecond))
+							c.res("%s created=%d elapsed=0", out3, map[bool]int{true: 1, false: 0}[out3 == "ok"])
+							ct3.Close()
+						}
 						ct.Close()
 						for _, sc := range d.conns {
 							sc.Close()
